@@ -211,6 +211,11 @@ impl Runner {
     }
 
     pub fn start(&mut self, id: BuildId, build: &Build) {
+        #[cfg(n2_verif)]
+        if crate::verif::executor_start(id, build) {
+            self.running += 1;
+            return;
+        }
         let cmdline = build.cmdline.clone().unwrap();
         let depfile = build.depfile.clone().map(PathBuf::from);
         let rspfile = build.rspfile.clone();
@@ -253,6 +258,11 @@ impl Runner {
 
     /// Wait for a build to complete.  May block for a long time.
     pub fn wait(&mut self, mut output: impl FnMut(BuildId, Vec<u8>)) -> FinishedTask {
+        #[cfg(n2_verif)]
+        if let Some(task) = crate::verif::executor_wait() {
+            self.running -= 1;
+            return task;
+        }
         loop {
             match self.rx.recv().unwrap() {
                 Message::Output((bid, line)) => output(bid, line),
@@ -263,6 +273,20 @@ impl Runner {
                 }
             }
         }
+    }
+}
+
+/// Verification hooks: access to the private helpers of this module.
+#[cfg(n2_verif)]
+pub mod verif_hooks {
+    pub fn extract_showincludes(output: Vec<u8>) -> (Vec<String>, Vec<u8>) {
+        super::extract_showincludes(output)
+    }
+    pub fn find_last_line(buf: &[u8]) -> &[u8] {
+        super::find_last_line(buf)
+    }
+    pub fn read_depfile(path: &std::path::Path) -> anyhow::Result<Vec<String>> {
+        super::read_depfile(path)
     }
 }
 
